@@ -53,6 +53,29 @@ Theorem C15_registered_stays : forall tab s l p key,
   available s p key = true -> available (reg_dirs tab s l) p key = true.
 Proof. intros. eapply available_le; [apply le_reg_dirs|assumption]. Qed.
 
+(* the same with the code's realpath branch (a directory that resolves elsewhere on a location is registered there as
+   SYMBOLIC_LINK after its real path has been registered as PRIMARY): for EVERY file-system answer [realpath], every
+   directory of the job is available on every allocated location after the loop, and so is the real path of a
+   directory that had to be registered and resolves elsewhere *)
+Theorem C15_registered_realpath : forall tab realpath s locs dirs li d,
+  In li locs -> In d dirs ->
+  available (reg_dirs_rp tab realpath s (loc_dirs locs dirs)) d (key_of tab li) = true.
+Proof.
+  intros. apply (reg_dirs_rp_available tab realpath (loc_dirs locs dirs) s (li, d)). apply in_loc_dirs; assumption.
+Qed.
+Theorem C15_realpath_registered : forall tab realpath s e,
+  available s (snd e) (key_of tab (fst e)) = false -> realpath e <> snd e ->
+  available (reg_dir_rp tab realpath s e) (realpath e) (key_of tab (fst e)) = true.
+Proof. exact reg_dir_rp_realpath. Qed.
+Example C15_realpath_example :
+  let tab := [mkloc ("nodes", "n1") false None []; mkloc ("nodes", "n2") false None []] in
+  let rp := realpath_of ["wd"] ["realwd"] [1] in
+  let s := reg_dirs_rp tab rp init (loc_dirs [0; 1] [["wd"; "u0"]]) in
+  rp (1, ["wd"; "u0"]) = ["realwd"; "u0"] /\ rp (0, ["wd"; "u0"]) = ["wd"; "u0"] /\
+  available s ["wd"; "u0"] ("nodes", "n2") = true /\ available s ["realwd"; "u0"] ("nodes", "n2") = true /\
+  available s ["realwd"; "u0"] ("nodes", "n1") = false.
+Proof. vm_compute. repeat split; reflexivity. Qed.
+
 Example C15_example :
   let fresh := fun n => nth n ["u0"; "u1"; "u2"; "u3"; "u4"; "u5"] "" in
   let f := mkfixed None (Some ["data"; "out"]) None in
@@ -72,3 +95,5 @@ Print Assumptions C15_exists_partial.
 Print Assumptions C15_exists_stays_partial.
 Print Assumptions C15_registered.
 Print Assumptions C15_registered_stays.
+Print Assumptions C15_registered_realpath.
+Print Assumptions C15_realpath_registered.
